@@ -111,6 +111,11 @@ theorem encAll_cons (i : Inst) (L : List Inst) :
   have : encAll (i :: L) = enc i ++ encAll L := by simp [encAll]
   rw [this, enc_eq]
 
+theorem posStrict_encAll : PosStrict encAll :=
+  posStrict_of_cons _ (fun a w => by
+    have : encAll (a :: w) = enc a ++ encAll w := by simp [encAll]
+    rw [this]; simp only [enc, List.length_append, List.length_cons, List.length_nil]; omega)
+
 /-! ## lists of compiled children -/
 
 theorem compList_all2 {α : Type} {txt : List α → Str} {Ok : List α → Prop} (fl : Flags) (caps : List Str)
@@ -274,7 +279,7 @@ theorem specO_and (fl : Flags) (caps : List Str) (l : List Pat) (t : Times) (h :
   cases pure_ok.mp hr
   have e : denO fl (.and l t) = timesDen (seqDen (denOL fl l)) t := by funext σ w; simp [denO]
   rw [e]
-  exact sem_withTimes okO_drop (sem_grp (sem_seqAll okO_drop _ _ (specO_list fl caps T l cs hcs h))) t
+  exact sem_withTimes okO_drop (posStrict_txtO T) (sem_grp (sem_seqAll okO_drop _ _ (specO_list fl caps T l cs hcs h))) t
 
 theorem specO_or (fl : Flags) (caps : List Str) (l : List Pat) (t : Times) (h : ∀ q ∈ l, SpecO fl caps q) :
     SpecO fl caps (.or l t) := by
@@ -285,7 +290,7 @@ theorem specO_or (fl : Flags) (caps : List Str) (l : List Pat) (t : Times) (h : 
   have e : denO fl (.or l t) = timesDen (fun σ w => (denOL fl l).flatMap fun d => d σ w) t := by
     funext σ w; simp [denO]
   rw [e]
-  exact sem_withTimes okO_drop (sem_or _ _ (specO_list fl caps T l cs hcs h)) t
+  exact sem_withTimes okO_drop (posStrict_txtO T) (sem_or _ _ (specO_list fl caps T l cs hcs h)) t
 
 theorem specO_anyOrder (fl : Flags) (caps : List Str) (l : List Pat) (t : Times) (h : ∀ q ∈ l, SpecO fl caps q) :
     SpecO fl caps (.anyOrder l t) := by
@@ -296,7 +301,7 @@ theorem specO_anyOrder (fl : Flags) (caps : List Str) (l : List Pat) (t : Times)
   have e : denO fl (.anyOrder l t) = timesDen (fun σ w => (perms (denOL fl l)).flatMap fun ds => seqDen ds σ w) t := by
     funext σ w; simp [denO]
   rw [e]
-  exact sem_withTimes okO_drop (sem_anyOrder okO_drop _ _ (specO_list fl caps T l cs hcs h)) t
+  exact sem_withTimes okO_drop (posStrict_txtO T) (sem_anyOrder okO_drop _ _ (specO_list fl caps T l cs hcs h)) t
 
 theorem specO_not (fl : Flags) (caps : List Str) (p : Pat) (t : Times) (h : SpecO fl caps p) :
     SpecO fl caps (.not p true t) := by
@@ -308,7 +313,7 @@ theorem specO_not (fl : Flags) (caps : List Str) (p : Pat) (t : Times) (h : Spec
     funext σ w; simp [denO]
   rw [e]
   simp only [if_true]
-  exact sem_withTimes okO_drop (sem_not (h T c hcp) (fun e w x hw => skip_operand T e w x hw)) t
+  exact sem_withTimes okO_drop (posStrict_txtO T) (sem_not (h T c hcp) (fun e w x hw => skip_operand T e w x hw)) t
 
 theorem masterO (fl : Flags) (caps : List Str) : ∀ (p : Pat), litO p = true → SpecO fl caps p
   | .operand name hasKids, h => by
@@ -495,7 +500,7 @@ theorem specI_mnem (fl : Flags) (caps : List Str) (name : Str) (ops : List Pat) 
   · rename_i ht
     cases pure_ok.mp hr
     simp only [ht, if_false]
-    exact sem_iter okI_drop (sem_grp core) t.lo t.hi
+    exact sem_iter okI_drop posStrict_encAll (sem_grp core) t.lo t.hi
 
 theorem specI_and (fl : Flags) (caps : List Str) (l : List Pat) (t : Times) (h : ∀ q ∈ l, SpecI fl caps q) :
     SpecI fl caps (.and l t) := by
@@ -505,7 +510,7 @@ theorem specI_and (fl : Flags) (caps : List Str) (l : List Pat) (t : Times) (h :
   cases pure_ok.mp hr
   have e : denI fl (.and l t) = timesDen (seqDen (denIL fl l)) t := by funext σ w; simp [denI]
   rw [e]
-  exact sem_withTimes okI_drop (sem_grp (sem_seqAll okI_drop _ _ (specI_list fl caps l cs hcs h))) t
+  exact sem_withTimes okI_drop posStrict_encAll (sem_grp (sem_seqAll okI_drop _ _ (specI_list fl caps l cs hcs h))) t
 
 theorem specI_or (fl : Flags) (caps : List Str) (l : List Pat) (t : Times) (h : ∀ q ∈ l, SpecI fl caps q) :
     SpecI fl caps (.or l t) := by
@@ -516,7 +521,7 @@ theorem specI_or (fl : Flags) (caps : List Str) (l : List Pat) (t : Times) (h : 
   have e : denI fl (.or l t) = timesDen (fun σ w => (denIL fl l).flatMap fun d => d σ w) t := by
     funext σ w; simp [denI]
   rw [e]
-  exact sem_withTimes okI_drop (sem_or _ _ (specI_list fl caps l cs hcs h)) t
+  exact sem_withTimes okI_drop posStrict_encAll (sem_or _ _ (specI_list fl caps l cs hcs h)) t
 
 theorem specI_anyOrder (fl : Flags) (caps : List Str) (l : List Pat) (t : Times) (h : ∀ q ∈ l, SpecI fl caps q) :
     SpecI fl caps (.anyOrder l t) := by
@@ -527,7 +532,7 @@ theorem specI_anyOrder (fl : Flags) (caps : List Str) (l : List Pat) (t : Times)
   have e : denI fl (.anyOrder l t) = timesDen (fun σ w => (perms (denIL fl l)).flatMap fun ds => seqDen ds σ w) t := by
     funext σ w; simp [denI]
   rw [e]
-  exact sem_withTimes okI_drop (sem_anyOrder okI_drop _ _ (specI_list fl caps l cs hcs h)) t
+  exact sem_withTimes okI_drop posStrict_encAll (sem_anyOrder okI_drop _ _ (specI_list fl caps l cs hcs h)) t
 
 theorem specI_not (fl : Flags) (caps : List Str) (p : Pat) (t : Times) (h : SpecI fl caps p) :
     SpecI fl caps (.not p false t) := by
@@ -539,7 +544,7 @@ theorem specI_not (fl : Flags) (caps : List Str) (p : Pat) (t : Times) (h : Spec
     funext σ w; simp [denI]
   rw [e]
   simp only [Bool.false_eq_true, if_false]
-  exact sem_withTimes okI_drop (sem_not (h c hcp) (fun e w x hw => skip_inst e w x hw)) t
+  exact sem_withTimes okI_drop posStrict_encAll (sem_not (h c hcp) (fun e w x hw => skip_inst e w x hw)) t
 
 /-- **master theorem, instruction level** -/
 theorem masterI (fl : Flags) (caps : List Str) : ∀ (p : Pat), litI p = true → SpecI fl caps p
